@@ -250,6 +250,7 @@ pub enum Ins {
 }
 pub static mut PROG: [[Ins; NINS]; NTASK] = [[Ins::End; NINS]; NTASK];
 pub static mut EXEC_COUNT: [u8; NTASK] = [0; NTASK];
+pub static mut IN_EXEC: [bool; NTASK] = [false; NTASK];
 pub const XLOG_CAP: usize = 8;
 pub static mut XLOG: [u8; XLOG_CAP] = [0xFF; XLOG_CAP];
 pub static mut XLOG_N: usize = 0;
@@ -271,6 +272,8 @@ impl Task for P {
   fn execute<C: Context>(&self, c: &mut C) -> u8 {
     let id = (self.0 as usize) % NTASK;
     unsafe {
+      // re-entrancy oracle: an undetected require cycle shows up as a task entered again while it is still executing
+      let mut k = 0; while k < NTASK { if k == id { assert!(!IN_EXEC[k], "C07 a task is never entered again while it is executing (undetected cyclic require)"); IN_EXEC[k] = true; } k += 1; }
       EXEC_COUNT[id] += 1;
       assert!(XLOG_N < XLOG_CAP, "KMODEL-CAPACITY: execution log");
       let mut k = 0; while k < XLOG_CAP { if k == XLOG_N { XLOG[k] = id as u8; } k += 1; }
@@ -306,6 +309,7 @@ impl Task for P {
       }
       pc += 1;
     }
+    unsafe { let mut k = 0; while k < NTASK { if k == id { IN_EXEC[k] = false; } k += 1; } }
     acc
   }
 }
